@@ -99,9 +99,7 @@ func cmdScen(seedS, tier string) int {
 		summary += " kinds=" + strings.Join(ks, ",")
 	}
 	fmt.Println(summary)
-	if violRuns > 0 {
-		return 1
-	}
+	// violations are reported by the VIOL lines; a non-zero exit means the scenario could not run
 	return 0
 }
 
